@@ -26,6 +26,7 @@ REQ = {
     "forced-offladder": ["P", dict(T["PBn"], price=2.03, force=True)],
     "forced-good": ["P", dict(T["PBn"], force=True)],
     "mv": L.P("PBc"),
+    "same-trade": ["P", dict(T["PBn"], trade=0, live_only=False)],  # a further order of the first trade (e.g. its closing leg)
 }
 
 
@@ -194,7 +195,7 @@ def alphabet(dt, rich):
     A = [L.tick(dt)]
     for e in ["SUS", "OPN", "T21"] + (["RM1", "CL"] if rich else []):
         A.append(L.tick(dt, e))
-    for k in ["good", "good2", "offladder", "badsize", "toobig", "forced-offladder", "forced-good", "mv"] + (["loc", "good3"] if rich else []):
+    for k in ["good", "good2", "offladder", "badsize", "toobig", "forced-offladder", "forced-good", "mv", "same-trade"] + (["loc", "good3"] if rich else []):
         A.append(L.tick(dt, "Q", [REQ[k]]))
     for i in (0, 1):
         A.append(L.tick(dt, "Q", [["C", i, None]]))
@@ -213,6 +214,7 @@ def alphabet(dt, rich):
     A.append(L.tick(dt, "Q", [tx([], [0])]))
     A.append(L.tick(dt, "SUS", [tx([REQ["good"], ["C", 0, None]])]))
     # the strategy's own code raises inside the `with` block after requests were accepted: the transaction still ends
+    A.append(L.tick(dt, "Q", [tx([REQ["good"], ["P", dict(T["PBn"], trade=0, live_only=False)]])]))  # two legs of one trade in one batch
     A.append(L.tick(dt, "Q", [["TXR", [list(REQ["good"])]]]))
     A.append(L.tick(dt, "Q", [["TXR", [["C", 0, None], list(REQ["good2"])]]]))
     return A
